@@ -22,6 +22,8 @@ Objects are numbered in creation order (meshes and caller arrays alike). ops:
   ["edit", obj, i, k, x]                        in place: mesh.vertices[i][k] = x   /  V[i,k] = x
   ["set", m, i, [x,y,z]]                        rebinding: mesh.vertices[i] = Vec(x,y,z)
 step : {"ok": true, "new": null | {"kind": 0..3|-1 (array), "edges": [...], "faces": [...], "cells": [...], "map": [...]|null,
+                                    "fc"/"cc"/"cf": [elem, owner] tables of face_corners / cell_corners / cell_faces,
+                                    "src": the same description of the source(s) taken just before a copy / merge,
                                     "shares_connectivity": bool},
         "objs": [ {"xyz": [[x,y,z]..], "cls": [classid..]} .. ]}      (all live objects, class ids canonical by first occurrence)
      | {"ok": false, "err": [type, message]}        (the history stops there)
@@ -38,9 +40,14 @@ import numpy as np
 warnings.filterwarnings("ignore")
 
 
+PARAMS = []      # the caller's point arguments of the last procedural call (kept alive, like a caller would)
+
+
 def V3(x):
     import mouette as M
-    return M.Vec(float(x[0]), float(x[1]), float(x[2]))
+    v = M.Vec(float(x[0]), float(x[1]), float(x[2]))
+    PARAMS.append(v)
+    return v
 
 
 def proc(name, p):
@@ -58,6 +65,8 @@ def proc(name, p):
         return P.axis_aligned_cube(triangulate=bool(p[0]))
     if name == "octahedron":
         return P.octahedron()
+    if name == "hexa":
+        return P.hexahedron_4pts(V3(p[0]), V3(p[1]), V3(p[2]), V3(p[3]), volume=True)
     if name == "flat_ring":
         return P.flat_ring(int(p[0]), float(p[1]) / 8.0, int(p[2]))
     if name == "cylinder":
@@ -71,7 +80,8 @@ def proc(name, p):
     if name == "pointcloud":
         pc = M.mesh.PointCloud()
         for x in p[0]:
-            pc.vertices.append(V3(x))
+            pc.vertices.append(V3(x))      # container semantics: the cloud stores the very vector it is given
+        del PARAMS[:]
         return pc
     raise ValueError("unknown producer " + name)
 
@@ -132,7 +142,13 @@ def snapshot(objs):
 
 def combi(o, extra=None):
     k = kind_of(o)
-    d = {"kind": k, "edges": [], "faces": [], "cells": [], "map": extra, "shares_connectivity": False}
+    d = {"kind": k, "edges": [], "faces": [], "cells": [], "map": extra, "shares_connectivity": False,
+         "fc": [[], []], "cc": [[], []], "cf": [[], []]}
+    for key, attr in (("fc", "face_corners"), ("cc", "cell_corners"), ("cf", "cell_faces")):
+        c = getattr(o, attr, None) if k >= 0 else None
+        if c is not None:
+            d[key] = [[int(a) for a in c._elem], [int(a) for a in c._adj]]
+    d["nv"] = len(slots(o))
     if k >= 1:
         d["edges"] = [[int(a) for a in e] for e in o.edges]
     if k >= 2:
@@ -156,6 +172,7 @@ def run_case(case, scratch):
     T = M.transform
     objs = []
     steps = []
+    keep = []
     for n, op in enumerate(case["ops"]):
         name = op[0]
         new = None
@@ -174,8 +191,11 @@ def run_case(case, scratch):
                 new = M.procedural.ring(int(op[1]), float(op[4]) / 8.0, bool(op[3]), int(op[2]))
                 info = combi(new)
             elif name == "proc":
+                del PARAMS[:]
                 new = proc(op[1], op[2])
                 info = combi(new)
+                keep.append(list(PARAMS))
+                info["shares_params"] = any(np.shares_memory(np.asarray(s), a) for s in slots(new) for a in PARAMS)
             elif name == "load":
                 path = os.path.join(scratch, "m%d.%s" % (n, op[2]))
                 M.mesh.save(objs[op[1]], path)
@@ -201,13 +221,17 @@ def run_case(case, scratch):
                     info = combi(new, [inv[i] for i in range(len(new.vertices))])
             elif name == "copy":
                 src = objs[op[1]]
+                srcinfo = [combi(src)]
                 new = M.mesh.copy(src, copy_attributes=bool(op[2]), copy_connectivity=bool(op[3]))
                 info = combi(new)
+                info["src"] = srcinfo
                 info["shares_connectivity"] = bool(hasattr(src, "connectivity") and hasattr(new, "connectivity")
                                                    and new.connectivity is src.connectivity)
             elif name == "merge":
+                srcinfo = [combi(objs[i]) for i in op[1]]
                 new = M.mesh.merge([objs[i] for i in op[1]])
                 info = combi(new)
+                info["src"] = srcinfo
             elif name == "translate":
                 r = T.translate(objs[op[1]], param(objs, op[2]))
                 assert r is objs[op[1]]
